@@ -249,9 +249,9 @@ pub fn run(cfg: &Cfg) -> i32 {
         cfg,
         "exploration",
         "case = (program with assignments before, between and after line ends, in functions, tunnels, threads and choice bodies; seeded history with 4 observers registered on overlapping sets of globals, added and removed (by name and with None) at arbitrary points, host assignments, resets, same-instance loads, and a third of the continues sliced into continue_async calls by the virtual clock). Every outermost continue is bracketed by polling all globals. Monitored over the callback log: a changed observed variable is notified exactly once to each registered observer, no (observer, variable) twice per continue, the notified value is the polled value at return (so look-ahead values never leak), only registered observers are called, every notification comes after the last external call of that continue and never from an unfinished slice or a choose call; a host assignment notifies each observer of that variable exactly once, immediately, with the assigned value; registrations survive reset and load; removals never fail. Non-trivial = histories with >= 1 observed change; distinct by (program, history).",
-        cfg.pick(1500, 20000),
+        cfg.pick(1500, 300000),
     );
-    let nprog = cfg.get_u64("programs", cfg.pick(1500, 20000));
+    let nprog = cfg.get_u64("programs", cfg.pick(1500, 300000));
     let mut gc = GenCfg::rich();
     gc.externals = true;
     gc.thread_boost = true;
